@@ -4,9 +4,14 @@ from .. import ops_common as oc
 DECIDES = ('for refine_knotvector x {curve, surface u/v, volume u/v/w}: every block is guarded by param[k] > 0 alone, so an unselected '
            'direction is untouched; helper calls, density=param[k] and knot-vector updates belong to direction k (AX3/AX1); gather strides, '
            'scatter order and flip usage as in C04 (LY1/LY2); the size passed for direction k is the length of the refined rows and the other '
-           'sizes are the current ones, in (u, v, w) order (LY3). cells of the in-place-updated result array are duplicated only by deep copy (AL1).')
-NOT_DECIDED = 'shape invariance, bisection counts, resulting multiplicities, helpers.knot_refinement arithmetic (incl. aliasing of row copies inside A5.4).'
-TECHNIQUE = 'axis-tag dataflow, stride rule in polynomial normal form, structural gather/scatter rules'
+           'sizes are the current ones, in (u, v, w) order (LY3); the control point view gathered in a block is re-read after the previous block replaced '
+           'the net (GA1). cells of the in-place-updated result array are duplicated only by deep copy (AL1). [ORDER TYPES, bounded box, exact per type] '
+           'helpers.knot_refinement (default knot list, density 1 and 2, with and without added knots) returns as knot vector exactly the sorted merge '
+           'of the old knots and of every refined knot - the distinct old knots of the domain, the added knots and the bisection midpoints - each '
+           'repeated degree - multiplicity times: bisection counts and resulting multiplicities, no slot left at its initial fill (KR1); the refined '
+           'net has one defined cell per control point of the refined vector (SK3).')
+NOT_DECIDED = 'shape invariance itself: the alpha blending values of A5.4 and the resulting control point coordinates are numerical.'
+TECHNIQUE = 'axis-tag dataflow, stride rule in polynomial normal form, structural gather/scatter rules, CFG reaching definitions, interpretation of the comparison skeleton over knot order types'
 
 
 def check(m, run):
@@ -14,3 +19,7 @@ def check(m, run):
     oc.block_rules(m, run, fi, 'refine')
     oc.helper_alias_rules(m, run, 'helpers.knot_refinement', pu1=False)
     run.floor('AL1.no-shared-cells', 2, 'row duplication in A5.4')
+    from .. import skel_drivers
+    skel_drivers.c05(m, run)
+    run.floor('KR1.refined-knot-vector-is-the-sorted-merge', 2, 'rows and slabs')
+    run.assume('order-type abstraction: distinct knots differ by more than the tolerance of knot_refinement (1e-7) and of find_multiplicity')
